@@ -42,6 +42,16 @@ check("C12", "model_checking",
       "Preemption happens only at hooked operations (before and after each); the pipe is a model kept bound to io.Pipe by the conformance run; inputs longer than the bound are cut into <=3 pieces only.",
       "stateless schedule exploration (controlled scheduler, DFS with prefix replay, state-key pruning) of the implementation + model/implementation conformance for io.Pipe", "DESIGN.md#c12", engine="vsched")
 
+check("C13", "model_checking",
+      "N=2 (thorough: N=3) concurrent calls from an 11-call alphabet (Minify/Bytes/String/Reader/Writer/Match on all media types, documents whose embedded content re-enters the registry, shared non-default option structs) and a 5-call alphabet on the package-level minify.Default are explored under the controlled scheduler on the real minify.go: every multiset, every interleaving at every lock/pipe/WaitGroup/go operation up to the preemption bound. Oracle: each call returns its sequential result, no deadlock, no call ever finds a lock held by another call, option structs unchanged. Sampling companions reported separately: free-running -race pass of the same bodies, history independence over all ordered pairs of corpus documents, cross-process output digest at GOMAXPROCS 1/4/16.",
+      "The cooperative scheduler sees interference only across hooked operations; unsynchronised windows are covered by the -race companion (sampling). Map iteration order is sampled by repeated processes.",
+      "stateless schedule exploration of the implementation (controlled scheduler, preemption-bounded DFS, state-key pruning) + free-running race-detector companion", "DESIGN.md#c13", engine="vsched")
+
+check("C14", "fault_enumeration",
+      "For every corpus document of every media type (incl. embedded content and documents that fail late) and the entry points direct Minify and M.Minify: the reader fails after k bytes for every k in 0..len (three read granularities, error alone or with the last bytes), the writer fails from its k-th call on for every k in 1..calls+1 (zero or short count), and both together; the call must return a non-nil error that is the injected one. Through Reader, Writer, ResponseWriter and MiddlewareWithError the same faults are explored under the controlled scheduler over all interleavings: the error must reach the consumer / Write / Close, Close must return, no deadlock.",
+      "A failing writer keeps failing; documents whose minification fails by itself may return their own error instead of the writer's.",
+      "exhaustive fault-position enumeration + schedule exploration of the wrappers", "DESIGN.md#c14", engine="vsched")
+
 ALL = ["C%02d" % i for i in range(1, 21)]
 NOT_YET = {p: "check not built yet in this revision (planned, see DESIGN.md section 4); not claimed until its command exists" for p in ALL if p not in CHECKS}
 
